@@ -67,6 +67,9 @@ class CallGraph:
                         base = ty.split("<")[0]
                         if base and base in blob:
                             for m in methods:
+                                # From impls are reached through Into::into / From::from of the matching types only
+                                if "std::convert::From<" in m and not ("convert::Into" in nm or "convert::From" in nm):
+                                    continue
                                 # formatting impls are only reached through the fmt machinery of the matching trait
                                 fm = _FMT_RE.search(m)
                                 if fm:
